@@ -207,6 +207,10 @@ struct Dumper {
       O["k"] = E->isCompoundAssignmentOp() ? "CompoundAssign" : (E->isAssignmentOp() ? "Assign" : "Binary");
       O["op"] = E->getOpcodeStr().str();
       O["l"] = stmt(E->getLHS()); O["r"] = stmt(E->getRHS());
+      if (auto *CA = dyn_cast<CompoundAssignOperator>(E)) {
+        // x op= y is computed in comp_c and converted back to the type of x: an int accumulator that collects doubles truncates on every step
+        O["lhs_c"] = cty(E->getLHS()->getType()); O["comp_c"] = cty(CA->getComputationResultType());
+      }
       return std::move(O);
     }
     if (auto *E = dyn_cast<UnaryOperator>(S)) {
